@@ -89,4 +89,18 @@ def load():
         "trusts TLC, the projection (x/net/html tree builder, declaration splitter in harness/cmd/vh/sanitize.go), the spelling pools of checks/sanitize.py; byte patterns the class alphabets do not distinguish are out of reach",
         "TLC-enumerated abstract alphabets concretised in several spellings + invariants evaluated by TLC on projections of the real outputs",
         "DESIGN.md 5/C18", "sanitize")
+    reg("C05", smtp.c05, "model_checking",
+        "Policy.tla / Wildcard.tla state the documented rule; TLC computes every decision from the recorded configuration and address and validates the real server's "
+        "replies and stored mailboxes for a bounded lattice of configurations loaded from the environment; the wildcard matcher is compared with the TLA+ semantics over a "
+        "complete bounded table of (pattern, string) pairs.",
+        "three recipient domains, five sender domains, eight pattern sets; configurations cover all per-domain membership combinations but not their full cross product",
+        "TLA+ policy contract + TLC-enumerated dialogues replayed under enumerated configurations + TLC trace validation",
+        "DESIGN.md 5/C05", "smtp")
+    reg("C17", smtp.c17, "model_checking",
+        "The Smtp contract takes the hook's answer as an input of MAIL/RCPT/end-of-DATA (deny with code and text, allow against policy, defer/none/garbage/error = policy, replaced "
+        "inbound message, first answer wins); TLC checks the contract model with all answer classes, walks every edge with every answer and enumerates deliveries with every "
+        "before.message_stored variant; all are played on the real server with the real Lua host and validated by TLC; concurrent sessions run under the race detector.",
+        "one universal script keyed on addresses/subjects; Go listeners stand in for 'other hooks'",
+        "TLA+ contract with hook answers + TLC tour/enumeration replayed on real server + Lua host + TLC trace validation + race detector",
+        "DESIGN.md 5/C17", "smtp")
     return REG
